@@ -24,6 +24,7 @@ import (
 
 	"github.com/pkg/errors"
 	kerrors "k8s.io/apimachinery/pkg/api/errors"
+	metav1 "k8s.io/apimachinery/pkg/apis/meta/v1"
 	"k8s.io/apimachinery/pkg/labels"
 	"k8s.io/client-go/tools/cache"
 	"k8s.io/klog/v2"
@@ -216,11 +217,39 @@ func (w *PerConfigReconciler) startJob(
 	}
 	defer func() {
 		if err != nil {
+			// The update may have taken effect even though an error was returned (e.g. the
+			// request timed out). The count must not be rolled back if the Job was in fact
+			// started by this update, otherwise the store undercounts the active Jobs from
+			// now on. Errors which mean that the update was definitely not applied are
+			// always rolled back (a conflict also arises if the Job was already started and
+			// counted before, but the cache is stale).
+			if !isUpdateDefinitelyNotApplied(err) && w.isJobStarted(ctx, rj) {
+				err = nil
+				return
+			}
 			store.Delete(rjc)
 		}
 	}()
 
 	return w.client.StartJob(ctx, rj)
+}
+
+// isUpdateDefinitelyNotApplied returns true if the error returned by the
+// apiserver guarantees that the update did not take effect.
+func isUpdateDefinitelyNotApplied(err error) bool {
+	return kerrors.IsConflict(err) || kerrors.IsNotFound(err) || kerrors.IsInvalid(err) ||
+		kerrors.IsForbidden(err) || kerrors.IsBadRequest(err)
+}
+
+// isJobStarted reads the Job from the apiserver (not from the cache) and returns
+// true if it exists with the same UID and is started.
+func (w *PerConfigReconciler) isJobStarted(ctx context.Context, rj *execution.Job) bool {
+	current, err := w.Clientsets().Furiko().ExecutionV1alpha1().Jobs(rj.GetNamespace()).
+		Get(ctx, rj.GetName(), metav1.GetOptions{})
+	if err != nil {
+		return false
+	}
+	return current.GetUID() == rj.GetUID() && job.IsStarted(current)
 }
 
 // enqueueAfter will defer a sync after the specified duration, and logs the purpose of deferring
